@@ -580,7 +580,10 @@ class Interp:
             lut = np.asarray(lut, I64)
             idx = 256 + (x >> 7)
             off = x & 0x7F
-            r = lut[idx] + (((lut[idx + 1] - lut[idx]) * off + 64) >> 7)
+            # LUTLookup keeps the slope in an int16_t: a step of more than 32767 between neighbouring entries (coarse tables of steep functions) wraps, and so does the result
+            slope = ((lut[idx + 1] - lut[idx] + 32768) & 0xFFFF) - 32768
+            r = lut[idx] + ((slope * off + 64) >> 7)
+            r = ((r + 32768) & 0xFFFF) - 32768
             if code in ("LOG", "SQRT"):
                 # entry i covers real inputs from imin + i*step: every element whose interval starts at or below zero is outside the domain (or interpolates from it)
                 real_lo = imin + idx * step
